@@ -1,7 +1,7 @@
 """C06 Byte-string fields take exactly the declared bytes or stop at the first delimiter (bisturi/field.py Data)."""
 import os, itertools, re
 from common import *
-import decl, pktcases
+import decl, pktcases, pktprops
 
 PID = 'C06'
 TARGETS = ['Properties/C06.vo', 'Bridge/RefBridge.vo', 'Bridge/DataBridge.vo', 'Bridge/PlumbingBridge.vo']
@@ -196,4 +196,4 @@ def run(tier, seed, rng):
 
 
 def replay(f):
-    return True, dict(note='re-run the check: python3 check.py C06', failure=f)
+    return pktprops.generic_replay(f)
